@@ -1,3 +1,481 @@
-use crate::{json::J, Ctx};
-pub fn c18(_ctx: &Ctx) {}
-pub fn replay(_c: &J) -> bool { false }
+//! C18: fast math helpers meet their accuracy contracts and are total.
+use crate::ev::{self, ChildSel, Worst};
+use crate::gen::{Rng, SPECIALS};
+use crate::json::J;
+use crate::util::ulp_diff;
+use crate::{Ctx, Tier};
+use std::sync::atomic::{AtomicU64, Ordering::Relaxed};
+use std::sync::Mutex;
+use yuvxyb_math::{cbrtf, expf, powf};
+
+pub const LIB_EXPONENTS: [f32; 17] = [
+    2.4,
+    1.0 / 2.4,
+    2.2,
+    1.0 / 2.2,
+    2.8,
+    1.0 / 2.8,
+    0.45,
+    1.0 / 0.45,
+    0.159_301_76,
+    78.84375,
+    1.0 / 78.84375,
+    1.0 / 0.159_301_76,
+    -80.0,
+    80.0,
+    -1.0,
+    0.0,
+    3.0,
+];
+
+fn powf_budget(y: f32) -> f64 {
+    2.5e-4 + 8e-6 * (y.abs() as f64)
+}
+
+enum Bits {
+    All,
+    Strided { stride: u64, phase: u64, extra: Vec<u32> },
+}
+impl Bits {
+    fn total(&self) -> u64 {
+        match self {
+            Bits::All => 1u64 << 32,
+            Bits::Strided { stride, phase, extra } => ((1u64 << 32) - phase + stride - 1) / stride + extra.len() as u64,
+        }
+    }
+    #[inline]
+    fn get(&self, i: u64) -> u32 {
+        match self {
+            Bits::All => i as u32,
+            Bits::Strided { stride, phase, extra } => {
+                let n = ((1u64 << 32) - phase + stride - 1) / stride;
+                if i < n {
+                    (phase + i * stride) as u32
+                } else {
+                    extra[(i - n) as usize]
+                }
+            }
+        }
+    }
+}
+
+fn boundary_bits() -> Vec<u32> {
+    let mut v = Vec::new();
+    // +-64 ulp around every power of two, both signs, plus subnormal/normal and inf/NaN borders
+    for e in 0..=255u32 {
+        let c = (e << 23) as i64;
+        for d in -64..=64i64 {
+            let x = c + d;
+            if (0..=0x7FFF_FFFF).contains(&x) {
+                v.push(x as u32);
+                v.push(x as u32 | 0x8000_0000);
+            }
+        }
+    }
+    // expf thresholds
+    for t in [85.0f32, 88.0, 88.72284, 89.0, -85.0, -88.0, -87.33655, -103.0, 1e38, -1e38, 0.0] {
+        let c = t.to_bits() as i64;
+        for d in -256..=256i64 {
+            let x = c + d;
+            if x >= 0 && x <= u32::MAX as i64 {
+                v.push(x as u32);
+            }
+        }
+    }
+    v.sort_unstable();
+    v.dedup();
+    v
+}
+
+pub fn c18(ctx: &Ctx) {
+    if ctx.arg("part") == Some("miri") {
+        return miri_part(ctx);
+    }
+    let lite = ctx.flag("lite");
+    let bits = if ctx.tier == Tier::Thorough && !lite {
+        Bits::All
+    } else {
+        let stride = ctx.arg_u64("stride").unwrap_or(if lite { 4099 } else { 127 });
+        Bits::Strided { stride, phase: crate::gen::hash64(ctx.seed ^ 0x18) % stride, extra: boundary_bits() }
+    };
+    let total = bits.total();
+
+    // ---------------- cbrtf
+    let wc = Mutex::new(Worst::<(f32, f32, f64)>::new());
+    let odd_bad = AtomicU64::new(0);
+    let first_odd = Mutex::new(None::<f32>);
+    let normal_n = AtomicU64::new(0);
+    ev::par_ranges("C18", total, 1 << 20, |_w, a, b| {
+        let mut loc = Worst::new();
+        let (mut odd, mut nn) = (0u64, 0u64);
+        for i in a..b {
+            let x = f32::from_bits(bits.get(i));
+            let got = cbrtf(x);
+            if !x.is_normal() {
+                continue; // totality only: reaching here without a panic is the observation
+            }
+            nn += 1;
+            let want = (x as f64).cbrt();
+            loc.upd(ulp_diff(got, want), (x, got, want));
+            if cbrtf(-x).to_bits() != (-got).to_bits() {
+                odd += 1;
+                let mut f = first_odd.lock().unwrap();
+                if f.is_none() {
+                    *f = Some(x);
+                }
+            }
+        }
+        normal_n.fetch_add(nn, Relaxed);
+        odd_bad.fetch_add(odd, Relaxed);
+        wc.lock().unwrap().merge(&loc);
+    });
+    {
+        let w = wc.lock().unwrap();
+        ev::observe("cbrtf_max_ulp_err", w.err);
+        ev::observe("cbrtf_normal_arguments", normal_n.load(Relaxed));
+        ev::observe("cbrtf_oddness_violations", odd_bad.load(Relaxed));
+        if let Some((x, got, want)) = w.at {
+            let j = J::obj().set("kind", "cbrtf").set("x", x).set("x_bits", x.to_bits()).set("got", got).set("want", want).set("ulp_err", w.err);
+            ev::observe("cbrtf_argmax", j.clone());
+            ev::sample(j.clone());
+            if !(w.err <= 1.0) {
+                ev::violation("C18|cbrtf|accuracy", format!("cbrtf({x:e}) = {got:e}, true {want:e}: {:.3} ulp > 1", w.err), j);
+            }
+        }
+        if let Some(x) = *first_odd.lock().unwrap() {
+            ev::violation("C18|cbrtf|odd", format!("cbrtf(-x) != -cbrtf(x) bitwise for {} arguments, e.g. x={x:e}", odd_bad.load(Relaxed)), J::obj().set("kind", "cbrtf").set("x_bits", x.to_bits()));
+        }
+    }
+
+    // ---------------- expf
+    let we = Mutex::new(Worst::<(f32, f32, f64)>::new());
+    let bad_inf = Mutex::new((0u64, None::<(f32, f32)>));
+    let bad_zero = Mutex::new((0u64, None::<(f32, f32)>));
+    let counts = [AtomicU64::new(0), AtomicU64::new(0), AtomicU64::new(0)];
+    ev::par_ranges("C18", total, 1 << 20, |_w, a, b| {
+        let mut loc = Worst::new();
+        let mut c = [0u64; 3];
+        for i in a..b {
+            let x = f32::from_bits(bits.get(i));
+            let got = expf(x);
+            if x.is_nan() || x.is_infinite() {
+                continue;
+            }
+            if (-85.0..=85.0).contains(&x) {
+                let want = (x as f64).exp();
+                let e = ((got as f64) - want).abs() / want;
+                loc.upd(e, (x, got, want));
+                c[0] += 1;
+            } else if (89.0..=1e38).contains(&x) {
+                c[1] += 1;
+                if got != f32::INFINITY {
+                    let mut g = bad_inf.lock().unwrap();
+                    g.0 += 1;
+                    if g.1.is_none() {
+                        g.1 = Some((x, got));
+                    }
+                }
+            } else if (-1e38..=-88.0).contains(&x) {
+                c[2] += 1;
+                // exact-math build (C20): libm returns the correctly rounded subnormal e^x for -103.97 < x <= -88,
+                // which is "0 to within the smallest normal"; the fast path must return exactly 0
+                let ok = got == 0.0 || (crate::mon_transfer::exact_build() && got > 0.0 && got < f32::MIN_POSITIVE);
+                if !ok {
+                    let mut g = bad_zero.lock().unwrap();
+                    g.0 += 1;
+                    if g.1.is_none() {
+                        g.1 = Some((x, got));
+                    }
+                }
+            }
+        }
+        for k in 0..3 {
+            counts[k].fetch_add(c[k], Relaxed);
+        }
+        we.lock().unwrap().merge(&loc);
+    });
+    {
+        let w = we.lock().unwrap();
+        ev::observe("expf_max_rel_err_on_[-85,85]", w.err);
+        ev::observe("expf_arguments_in_[-85,85]", counts[0].load(Relaxed));
+        ev::observe("expf_arguments_in_[89,1e38]", counts[1].load(Relaxed));
+        ev::observe("expf_arguments_in_[-1e38,-88]", counts[2].load(Relaxed));
+        if let Some((x, got, want)) = w.at {
+            let j = J::obj().set("kind", "expf").set("x", x).set("x_bits", x.to_bits()).set("got", got).set("want", want).set("rel_err", w.err);
+            ev::observe("expf_argmax", j.clone());
+            ev::sample(j.clone());
+            if !(w.err <= 1e-5) {
+                ev::violation("C18|expf|accuracy", format!("expf({x:e}) = {got:e}, true {want:e}: rel err {:.3e} > 1e-5", w.err), j);
+            }
+        }
+        let g = bad_inf.lock().unwrap();
+        if let Some((x, got)) = g.1 {
+            ev::violation("C18|expf|overflow-not-inf", format!("expf({x:e}) = {got:e}, expected +inf ({} arguments)", g.0), J::obj().set("kind", "expf").set("x_bits", x.to_bits()));
+        }
+        let g = bad_zero.lock().unwrap();
+        if let Some((x, got)) = g.1 {
+            ev::violation("C18|expf|underflow-not-zero", format!("expf({x:e}) = {got:e}, expected 0 ({} arguments)", g.0), J::obj().set("kind", "expf").set("x_bits", x.to_bits()));
+        }
+    }
+
+    // ---------------- powf: every positive normal x (or the strided subset) for the exponents the library uses
+    let nx = 0x7F80_0000u64 - 0x0080_0000;
+    let xstep: u64 = match &bits {
+        Bits::All => 1,
+        Bits::Strided { stride, .. } => *stride,
+    };
+    let mut per_y = Vec::new();
+    let mut pow_n = 0u64;
+    for y in LIB_EXPONENTS {
+        let res = Mutex::new((Worst::<(f32, f32, f64)>::new(), 0u64));
+        let phase = crate::gen::hash64(ctx.seed ^ y.to_bits() as u64) % xstep;
+        ev::par_ranges("C18", nx, 1 << 22, |_w, a, b| {
+            let mut loc = Worst::new();
+            let mut n = 0u64;
+            let mut i = a + (xstep - (a % xstep) + phase) % xstep;
+            while i < b {
+                let x = f32::from_bits(i as u32 + 0x0080_0000);
+                let want = (x as f64).powf(y as f64);
+                if (1e-35..=1e35).contains(&want) {
+                    n += 1;
+                    let got = powf(x, y);
+                    loc.upd(((got as f64) - want).abs() / want, (x, got, want));
+                }
+                i += xstep;
+            }
+            let mut r = res.lock().unwrap();
+            r.0.merge(&loc);
+            r.1 += n;
+        });
+        let r = res.lock().unwrap();
+        pow_n += r.1;
+        let budget = powf_budget(y);
+        let mut row = J::obj().set("y", y).set("arguments", r.1).set("max_rel_err", r.0.err).set("budget", budget);
+        if let Some((x, got, want)) = r.0.at {
+            row.put("argmax", J::obj().set("x", x).set("got", got).set("want", want));
+            if !(r.0.err <= budget) {
+                ev::violation(
+                    format!("C18|powf|accuracy|y={y}"),
+                    format!("powf({x:e}, {y}) = {got:e}, true {want:e}: rel err {:.3e} > {budget:.3e}", r.0.err),
+                    J::obj().set("kind", "powf").set("x_bits", x.to_bits()).set("y_bits", y.to_bits()),
+                );
+            }
+        }
+        per_y.push(row);
+    }
+    ev::observe("powf_library_exponents", J::Arr(per_y));
+
+    // ---------------- powf: random (x, y)
+    let nrand: u64 = ctx.arg_u64("pairs").unwrap_or(if lite { 1 << 20 } else { ctx.pick(1 << 24, 1 << 30) });
+    let res = Mutex::new((0.0f64, None::<(f32, f32, f32, f64)>, 0u64));
+    ev::par_ranges("C18", nrand, 1 << 18, |_w, a, b| {
+        let mut rng = Rng::new(ctx.seed, 0x0C18_0000 + (a >> 18));
+        let mut worst_ratio = 0.0f64;
+        let mut at = None;
+        let mut n = 0u64;
+        for i in a..b {
+            let x = f32::from_bits(rng.below(nx) as u32 + 0x0080_0000);
+            let y = match i % 4 {
+                0 => rng.range(-80.0, 80.0) as f32,
+                1 => rng.range(-4.0, 4.0) as f32,
+                2 => f32::from_bits(rng.below(0x42A0_0001) as u32) * if rng.coin() { 1.0 } else { -1.0 },
+                _ => rng.pick(&LIB_EXPONENTS),
+            };
+            let want = (x as f64).powf(y as f64);
+            if !(1e-35..=1e35).contains(&want) {
+                continue;
+            }
+            n += 1;
+            let got = powf(x, y);
+            let rel = ((got as f64) - want).abs() / want;
+            let ratio = rel / powf_budget(y);
+            if ratio > worst_ratio || ratio.is_nan() {
+                worst_ratio = ratio;
+                at = Some((x, y, got, want));
+            }
+        }
+        let mut r = res.lock().unwrap();
+        if worst_ratio > r.0 || worst_ratio.is_nan() {
+            r.0 = worst_ratio;
+            r.1 = at;
+        }
+        r.2 += n;
+    });
+    {
+        let r = res.lock().unwrap();
+        pow_n += r.2;
+        ev::observe("powf_random_pairs_in_domain", r.2);
+        ev::observe("powf_random_worst_err_over_budget", r.0);
+        if let Some((x, y, got, want)) = r.1 {
+            let j = J::obj().set("kind", "powf").set("x", x).set("y", y).set("x_bits", x.to_bits()).set("y_bits", y.to_bits()).set("got", got).set("want", want);
+            ev::observe("powf_random_argmax", j.clone());
+            ev::sample(j.clone());
+            if !(r.0 <= 1.0) {
+                ev::violation("C18|powf|accuracy|random", format!("powf({x:e}, {y:e}) = {got:e}, true {want:e}: {:.3} x budget", r.0), j);
+            }
+        }
+    }
+
+    // ---------------- totality on hostile arguments (hook in Trap mode turns would-be UB into a panic)
+    let mut tot_calls = 0u64;
+    let mut nonpanic = 0u64;
+    let mut rng = Rng::new(ctx.seed, 0x0C18_7777);
+    let mut args: Vec<f32> = SPECIALS.to_vec();
+    args.extend(crate::gen::nan_payloads());
+    let nbits: usize = ctx.pick(1 << 16, 1 << 20);
+    for _ in 0..nbits {
+        args.push(f32::from_bits(rng.next() as u32));
+    }
+    for (i, &x) in args.iter().enumerate() {
+        for f in 0..3 {
+            tot_calls += 1;
+            let r = ev::guarded(|| match f {
+                0 => cbrtf(x),
+                1 => expf(x),
+                _ => {
+                    let y = if i < 64 { SPECIALS[i % SPECIALS.len()] } else { f32::from_bits(crate::gen::hash64(i as u64) as u32) };
+                    powf(x, y)
+                }
+            });
+            match r {
+                Ok(_) => nonpanic += 1,
+                Err(msg) => {
+                    let name = ["cbrtf", "expf", "powf"][f];
+                    ev::violation(format!("C18|totality|{name}|{}", ev::panic_site(&msg)), format!("{name}({x:e}, ..) panicked: {msg}"), J::obj().set("kind", "totality").set("fn", name).set("x_bits", x.to_bits()).set("index", i));
+                }
+            }
+        }
+    }
+    // powf over the full special x special grid
+    for &x in SPECIALS.iter().chain(crate::gen::nan_payloads().iter()) {
+        for &y in SPECIALS.iter().chain(crate::gen::nan_payloads().iter()) {
+            tot_calls += 1;
+            match ev::guarded(|| powf(x, y)) {
+                Ok(_) => nonpanic += 1,
+                Err(msg) => ev::violation(
+                    format!("C18|totality|powf|{}", ev::panic_site(&msg)),
+                    format!("powf({x:e}, {y:e}) panicked: {msg}"),
+                    J::obj().set("kind", "totality").set("fn", "powf").set("x_bits", x.to_bits()).set("y_bits", y.to_bits()),
+                ),
+            }
+        }
+    }
+    ev::observe("totality_calls", tot_calls);
+    ev::observe("totality_calls_returned", nonpanic);
+
+    let evals = total * 2 + pow_n + tot_calls;
+    ev::add_evals(evals);
+    ev::add_nontrivial(normal_n.load(Relaxed) + counts.iter().map(|c| c.load(Relaxed)).sum::<u64>() + pow_n);
+    let exh = matches!(bits, Bits::All);
+    ev::exhaustive(exh);
+    ev::rule(if exh {
+        "cbrtf and expf over all 2^32 f32 bit patterns; powf over every positive normal x for each of 17 exponents (the 12 the library uses, +-80, +-1, 0, 3) and over seeded random (x,y) pairs; \
+         hostile-argument table (specials, NaN payloads, random bit patterns, special x special grid for powf) for totality with the to_int_unchecked hook in Trap mode. \
+         distinct by enumeration; non-trivial = argument inside the contract's domain"
+    } else {
+        "cbrtf and expf over every stride-th f32 bit pattern (seed-dependent phase) plus +-64 ulp around every power of two and +-256 ulp around the expf thresholds; powf over the same stride of positive normal x \
+         for each of 17 exponents and over seeded random (x,y) pairs; hostile-argument table for totality with the to_int_unchecked hook in Trap mode. distinct by construction (strided enumeration, de-duplicated extras); \
+         non-trivial = argument inside the contract's domain"
+    });
+}
+
+/// Miri: the hostile-argument table, one CASE per argument (hooks in Record mode: Miri is the judge).
+fn miri_part(ctx: &Ctx) {
+    let sel = ChildSel::from_ctx(ctx);
+    let mut args: Vec<(f32, f32)> = Vec::new();
+    let sp: Vec<f32> = SPECIALS.iter().copied().chain(crate::gen::nan_payloads()).collect();
+    for &x in &sp {
+        args.push((x, 2.4));
+    }
+    for &x in &sp {
+        for &y in &[f32::NAN, f32::INFINITY, f32::NEG_INFINITY, 0.0, -0.0, 80.0, -80.0, 1e30, 0.45, 78.84375] {
+            args.push((x, y));
+        }
+    }
+    let mut rng = Rng::new(ctx.seed, 0x0C18_3333);
+    let nrand = ctx.pick(400, 3000);
+    for _ in 0..nrand {
+        args.push((f32::from_bits(rng.next() as u32), f32::from_bits(rng.next() as u32)));
+    }
+    let mut n = 0u64;
+    for (i, (x, y)) in args.iter().enumerate() {
+        if !sel.wants(i as u64) {
+            continue;
+        }
+        sel.announce(i as u64, &format!("x={:#010x} y={:#010x}", x.to_bits(), y.to_bits()));
+        let a = cbrtf(*x);
+        let b = expf(*x);
+        let c = powf(*x, *y);
+        let d = expf(*y);
+        std::hint::black_box((a, b, c, d));
+        n += 4;
+    }
+    ev::add_evals(n);
+    ev::add_nontrivial(n);
+    ev::observe("miri_calls", n);
+    ev::rule("Miri: cbrtf/expf/powf on the hostile-argument table (specials x special exponents, NaN payloads, random bit patterns)");
+}
+
+pub fn replay(case: &J) -> bool {
+    let kind = case.get("kind").and_then(J::as_str).unwrap_or("");
+    let xb = case.get("x_bits").and_then(J::as_u64).map(|v| f32::from_bits(v as u32));
+    let yb = case.get("y_bits").and_then(J::as_u64).map(|v| f32::from_bits(v as u32));
+    let Some(x) = xb else { return false };
+    ev::add_evals(1);
+    match kind {
+        "cbrtf" => {
+            let got = cbrtf(x);
+            let want = (x as f64).cbrt();
+            let u = ulp_diff(got, want);
+            let odd = cbrtf(-x).to_bits() == (-got).to_bits();
+            ev::observe("replay", J::obj().set("got", got).set("want", want).set("ulp", u).set("odd_ok", odd));
+            if x.is_normal() && (!(u <= 1.0) || !odd) {
+                ev::violation("C18|replay", format!("{u} ulp odd_ok={odd}"), case.clone());
+            }
+            true
+        }
+        "expf" => {
+            let got = expf(x);
+            let want = (x as f64).exp();
+            ev::observe("replay", J::obj().set("got", got).set("want", want));
+            let bad = if (-85.0..=85.0).contains(&x) {
+                !(((got as f64) - want).abs() / want <= 1e-5)
+            } else if (89.0..=1e38).contains(&x) {
+                got != f32::INFINITY
+            } else if (-1e38..=-88.0).contains(&x) {
+                !(got == 0.0 || (crate::mon_transfer::exact_build() && got > 0.0 && got < f32::MIN_POSITIVE))
+            } else {
+                false
+            };
+            if bad {
+                ev::violation("C18|replay", format!("expf({x:e}) = {got:e}"), case.clone());
+            }
+            true
+        }
+        "powf" => {
+            let Some(y) = yb else { return false };
+            let got = powf(x, y);
+            let want = (x as f64).powf(y as f64);
+            let rel = ((got as f64) - want).abs() / want;
+            ev::observe("replay", J::obj().set("got", got).set("want", want).set("rel", rel).set("budget", powf_budget(y)));
+            if (1e-35..=1e35).contains(&want) && x.is_normal() && x > 0.0 && y.abs() <= 80.0 && !(rel <= powf_budget(y)) {
+                ev::violation("C18|replay", format!("rel {rel:e}"), case.clone());
+            }
+            true
+        }
+        "totality" => {
+            let f = case.get("fn").and_then(J::as_str).unwrap_or("");
+            let r = ev::guarded(|| match f {
+                "cbrtf" => cbrtf(x),
+                "expf" => expf(x),
+                _ => powf(x, yb.unwrap_or(2.4)),
+            });
+            ev::observe("replay", J::obj().set("result", match &r { Ok(v) => format!("{v:e}"), Err(m) => m.clone() }));
+            if let Err(m) = r {
+                ev::violation("C18|replay", m, case.clone());
+            }
+            true
+        }
+        _ => false,
+    }
+}
